@@ -292,7 +292,8 @@ class P:
             raw = v[2:-1]
             bs = bytearray(); i = 0
             while i < len(raw):
-                if raw[i] == '\\': bs.append(int(raw[i + 1:i + 3], 16)); i += 3
+                if raw[i] == '\\' and raw[i + 1] == '\\': bs.append(0x5c); i += 2
+                elif raw[i] == '\\': bs.append(int(raw[i + 1:i + 3], 16)); i += 3
                 else: bs.append(ord(raw[i])); i += 1
             return Const('bytes', ty, bytes(bs))
         if v == '{' or (v == '<' and s.peek()[1] == '{'):
